@@ -1,8 +1,8 @@
 package checks
 
 import (
-	"go/token"
 	"fmt"
+	"go/token"
 	"go/types"
 	"sort"
 	"strings"
@@ -19,11 +19,11 @@ func init() {
 
 // Fields a documented formatter option normalises, or that are derived from other fields: one reason each.
 var formatterExemptFields = map[string]string{
-	"InfixExpression.Explicit":     "option explicit_string_concat decides whether `+` is printed",
+	"InfixExpression.Explicit":       "option explicit_string_concat decides whether `+` is printed",
 	"ReturnStatement.HasParenthesis": "option return_statement_parenthesis decides the parentheses",
-	"SwitchStatement.Default":      "derived: index of the case whose Test is nil",
-	"CaseStatement.Fallthrough":    "derived: the last statement of the case is a FallthroughStatement, which is printed",
-	"TableProperty.HasComma":       "trailing table commas are normalised (documented rewrite)",
+	"SwitchStatement.Default":        "derived: index of the case whose Test is nil",
+	"CaseStatement.Fallthrough":      "derived: the last statement of the case is a FallthroughStatement, which is printed",
+	"TableProperty.HasComma":         "trailing table commas are normalised (documented rewrite)",
 }
 
 // Expression kinds that only occur as properties of one declaration kind and are printed by that
